@@ -1344,7 +1344,7 @@ def run(chk):
         "(coverage.wide_constructs_oracle_only) are NOT in the Coq model: they are exercised by the differential oracle only, expected output "
         "from the Python reference evaluator in checks/c01.py (WEval)",
     ]
-    if os.environ.get("VERIF_KF_DEV") and not any(f.get("id") == "enumerate-index-usize" for f in chk.findings):
+    if os.environ.get("VERIF_KF_DEV"):
         # TEMPORARY fallback until the lead merges build/kf-C01.json into known_findings.json (drop after merging)
         try:
             chk.findings = json.load(open(os.path.join(vlib.VERIF, "build", "kf-C01.json")))
@@ -2631,18 +2631,36 @@ M_ITER_SOURCES = {"dict_keys", "dict_values", "enumerate_idx", "enumerate_val", 
 M_COMPR = {"listcomp", "listcomp+filter", "dictcomp"}
 
 
+M_LEGACY_ID = {"set-loop-ref": "ref-binder"}       # ids introduced when a class was split -> the id that covered it before
+
+
+def m_class(attrs, listed=None):
+    """(property, finding id) of the class a matrix cell belongs to, or None.  `listed`: ids present in the findings lists;
+    an id introduced by a later split falls back to the id that covered those cells before when it is not listed yet."""
+    k = m_class0(attrs)
+    if k and listed is not None and k[1] not in listed:
+        b, s = attrs["binder"], attrs["source"]
+        legacy = M_LEGACY_ID.get(k[1])
+        if k[1] == "comprehension-over-dict-or-str":
+            legacy = "dict-iter-pairs" if s in M_DICT_DIRECT else "str-iter"
+        if legacy:
+            return (k[0], legacy)
+    return k
+
+
 def m_known(attrs):
-    """(property, finding id) of the known class a matrix cell belongs to, or None"""
+    return m_class(attrs)
+
+
+def m_class0(attrs):
     b, s, u, ty = attrs["binder"], attrs["source"], attrs["use"], attrs["elem"]
     if b == "ladder":
         return None
-    if s in M_DICT_DIRECT:
-        return ("C02", "dict-iter-pairs")
-    if s in M_STR_ITER:
-        return ("C02", "str-iter")
     if b == "closure":
         return ("C02", "closure-param-untyped") if u in ("call_arg", "call_kwarg", "call_second", "neg") else None
     if b in M_COMPR:
+        if s in M_DICT_DIRECT or s in M_STR_ITER:
+            return ("C02", "comprehension-over-dict-or-str")
         if s in M_ITER_SOURCES or (b == "dictcomp" and s.startswith("range")):
             return ("C02", "comprehension-over-iterator")
         if ty == "str" and s != "strlist_param" and (u in ("call_arg", "call_str", "key+call_arg") or (b == "listcomp+filter")):
@@ -2660,17 +2678,25 @@ def m_known(attrs):
         if ty == "str" and u == "index0":
             return ("C02", "ref-binder")
         return None
-    # for loops
+    # ---- for loops
+    if ty == "str" and u == "assign_mut" and s not in M_STR_ITER and s != "str_split":
+        return ("C02", "ref-binder")            # `mut y = x` with x a reference to a String, then `y = y + ".."`
+    if s in M_DICT_DIRECT:
+        return ("C02", "dict-iter-pairs")
+    if s in M_STR_ITER:
+        return ("C02", "str-split-move") if u == "return" else ("C02", "str-iter")
     if s == "enumerate_idx":
         if u == "while":
             return ("C01", "enumerate-index-usize")
         return ("C02", "enumerate-index-usize") if u in M_ENUM_IDX_USES else None
-    if ty == "str" and u == "assign_mut":
-        return ("C02", "str-concat-owned")
-    if s == "str_split" and u in ("concat", "concat_left"):
+    if s == "str_split" and u in ("concat", "concat_left", "assign_mut"):
         return ("C02", "str-concat-owned")
     if s == "str_split" and u == "return":
         return ("C02", "str-split-move")
+    if s in ("set_var", "set_annot", "set_param") and u in M_REF_USES_INT:
+        return ("C02", "set-loop-ref")
+    if s == "strset_var" and u in M_REF_USES_STR:
+        return ("C02", "set-loop-ref")
     if s in M_REF_INT and (u in M_REF_USES_INT or (s in ("dict_keys", "dict_values") and u in M_REF_USES_DICTVIEW)):
         return ("C02", "ref-binder")
     if s in M_REF_STR and u in M_REF_USES_STR:
@@ -2679,7 +2705,7 @@ def m_known(attrs):
 
 
 M_WITNESS_TYPECK = ["dict-iter-pairs", "str-iter", "closure-param-untyped", "comprehension-over-iterator", "comprehension-str-clone",
-                    "str-concat-owned", "ref-binder", "enumerate-index-usize"]
+                    "str-concat-owned", "ref-binder", "enumerate-index-usize", "set-loop-ref", "comprehension-over-dict-or-str"]
 M_WITNESS_BORROWCK = ["str-split-move"]
 
 
@@ -2738,6 +2764,16 @@ def matrix_oracle(chk, binary, tag, prop, known):
     names = ["m%d" % i for i in range(len(cells))]
     exp = m_expected(cells, names)
     fails, stats, reproduced = [], {}, set()
+    sib = "C02" if prop == "C01" else "C01"
+    sib_list = vlib.known_findings(sib)
+    if os.environ.get("VERIF_KF_DEV"):
+        try:
+            sib_list = json.load(open(os.path.join(vlib.VERIF, "build", "kf-%s.json" % sib)))
+        except OSError:
+            pass
+    status = {prop: {f["id"]: f.get("status") for f in chk.findings}, sib: {f["id"]: f.get("status") for f in sib_list}}
+    listed = set(status[prop]) | set(status[sib])
+    stats["matrix_regression_classes(fixed)"] = sorted(i for p_ in status for i, st in status[p_].items() if st == "fixed")
     oracle = "CPython on the same text (matrix cells: binder x source x use, elif ladders; outside the Coq fragment)"
     arm = {}
     for c in cells:
@@ -2755,9 +2791,10 @@ def matrix_oracle(chk, binary, tag, prop, known):
     real = emit_real(binary, [single(c, n) for c, n in zip(cells, names)])
     live, excused, rejected, wit = [], {}, [], {}
     for c, n, r in zip(cells, names, real):
-        kn = m_known(c.attrs)
+        kn = m_class(c.attrs, listed)
+        kn_status = status[kn[0]].get(kn[1]) if kn else None
         front = "panic" if "panic" in r else ("parse" if r.get("parse") != "ok" else ("check" if r["check"] else ("gen" if r["gen"] != "ok" or not r.get("syn") else "ok")))
-        if kn and (kn[1] in known or kn[0] != prop):
+        if kn and (kn_status == "known" or (kn[0] != prop and kn_status != "fixed")):
             # a member of a listed class (of this property, or of the sibling property's list): nothing is demanded
             excused[kn[1]] = excused.get(kn[1], 0) + 1
             if kn[0] == prop and front in ("ok", "gen") and kn[1] not in wit:
